@@ -79,6 +79,12 @@ func OwnedBy(m Mismatch, a map[string]any, prop string) bool {
 	if m.Kind == "nonce" && prop == "C03" {
 		return true
 	}
+	if strings.HasPrefix(m.Kind, "relaygen") && prop == "C20" {
+		return true
+	}
+	if m.Kind == "ltcred" && prop == "C17" {
+		return true
+	}
 	for _, p := range owners[m.Kind] {
 		if p == prop {
 			return true
